@@ -143,13 +143,32 @@ def no_candidate_newer(sim, st, out_t, cands):
     return True
 
 
+def refold_symbol(sim, st, x):
+    """An enum value rebuilt variant by variant from one symbol (a derived Clone: `match e {Other(v) => Other(v), FromNone =>
+    FromNone}`) IS that symbol on the path that fixed the variant; give it back its name so that provenance comparisons
+    (`the error returned is the input's error`) do not depend on whether the code copied or cloned it."""
+    if not isinstance(x, Enum):
+        return x
+    cands = [p[1] for p in st.pc if p[0] == "variant" and p[2] == x.vname and isinstance(p[1], str)]
+    good = []
+    for name in dict.fromkeys(cands):
+        try:
+            if sim.final_value(st, Sym(name, x.ty)) == x:
+                good.append(name)
+        except Exception:
+            pass
+    if len(good) == 1:
+        return Sym(good[0], x.ty)
+    return x
+
+
 def classify_output(sim, st, v):
     """Output<T,E> value -> ('E', e) | ('N',) | ('S', time_i64, payload) ; None if undetermined."""
     v = sim.final_value(st, v)
     if not isinstance(v, Enum):
         return None
     if v.vname == "Err":
-        return ("E", v.fields[0])
+        return ("E", refold_symbol(sim, st, v.fields[0]))
     o = v.fields[0]
     if isinstance(o, Enum):
         if o.vname == "None":
